@@ -489,7 +489,14 @@ async def _interp(run: Run, sdef: dict, ctx: Context, ev: Any, rn: int, inv: Any
             if len(act) > 5 and act[5]:
                 # opt-in (no generated spec has it; corpus witness c03_unhandled_idle_batch): the step hands collect_events an event
                 # OTHER than the one it was invoked with (act[5] = [type id, k]); a collect re-run then runs with that event
-                cev = ET.mk(int(act[5][0]), run.fresh(), act[5][1])
+                # act[5][0] may be a LIST of type ids: the step normalises its input into one of several event types, chosen by
+                # the input's k (a join step turning Part(side) into Left/Right); act[5][1] == "own": the derived event keeps the
+                # input's k.  Under `det_uids` the derived event's uid is derived from the input's (schedule-independent results).
+                fty = act[5][0]
+                if isinstance(fty, list):
+                    fty = fty[int(getattr(ev, "k", None) or 0) % len(fty)]
+                fk = getattr(ev, "k", None) if act[5][1] == "own" else act[5][1]
+                cev = ET.mk(int(fty), ((uid or 0) * 8 + 5) if run.spec.get("det_uids") else run.fresh(), fk)
             for _rep in range(max(int(act[3]) if len(act) > 3 else 1, 1) - 1):
                 # the same collect_events call made again by one invocation (e.g. in a loop): every call that
                 # still needs the event appends one more AddCollectedEvent for the same buffer to this result
@@ -498,6 +505,7 @@ async def _interp(run: Run, sdef: dict, ctx: Context, ev: Any, rn: int, inv: Any
             run.trace.steps.append(("collect_call", name, uid, rn, asyncio.get_event_loop().time(),
                                     {"expected": list(act[1]), "buf": bufname or "default", "snapshot": snap, "snapshot_tys": snap_tys,
                                      "ty": ET.TY_ID.get(type(ev), -1), "at_call": len(run.trace.calls),
+                                     "handed": [ET.TY_ID.get(type(cev), -1), getattr(cev, "uid", None)],
                                      "got": None if got is None else [e.uid for e in got],
                                      "got_tys": None if got is None else [ET.TY_ID[type(e)] for e in got]}))
             if got is None:
